@@ -40,7 +40,8 @@ def gen(rng, n):
             steps = [s1, s2]
         elif mode == 'inter':
             reply = rng.choice(REPLIES)
-            steps = [dict(base, argv=argv + ['-i'], stdin=reply)]
+            # the LAST of -i / -f on the command line decides (one argparse destination): '-f ... -i' is interactive
+            steps = [dict(base, argv=argv + rng.choice([['-i'], ['-i'], ['--interactive'], ['-f', '-i'], ['-f', '--interactive'], ['-i', '-f', '-i']]), stdin=reply)]
         elif mode == 'tty':
             reply = rng.choice(REPLIES)
             steps = [dict(base, argv=argv, stdin=reply, tty=True)]
